@@ -157,6 +157,26 @@ func init() {
 						}
 					}
 				}
+				// writes to documents never touch the definitions of the indexes, and a delete never fails
+				switch kind := callKind(last); kind {
+				case "InsertOne", "InsertMany", "UpdateOne", "UpdateMany", "ReplaceOne", "DeleteOne", "DeleteMany", "BulkWrite", "FindOneAndUpdate":
+					if ns := w.Engine.Catalog().Namespaces[lungo.Handle{"d", "c"}]; ns != nil && p.hasNS {
+						for n, before := range p.indexes {
+							ix := ns.Indexes[n]
+							if ix == nil {
+								r.Violation("index-definition-lost:"+kind, fmt.Sprintf("index %s is gone after %s; history: %s", n, last, hist), rep)
+								continue
+							}
+							now := ix.Config()
+							if !(idxRequest{n, *before.Key, before.Unique, partialOf(before), before.Expiry}).sameAs(n, now) {
+								r.Violation("index-definition-changed:"+kind, fmt.Sprintf("the definition of index %s changed from %+v to %+v by %s; history: %s", n, cfgString(before), cfgString(now), last, hist), rep)
+							}
+						}
+					}
+					if (kind == "DeleteOne" || kind == "DeleteMany") && !strings.HasPrefix(obs, "ok") {
+						r.Violation("delete-fails:"+kind, fmt.Sprintf("%s returned %s; history: %s", last, obs, hist), rep)
+					}
+				}
 				if p.hasNS && (strings.Contains(last, `DropIndex("_id_")`) || strings.Contains(last, `DropIndex("*")`) || strings.Contains(last, `DropOneWithKey({"_id"`)) {
 					mu.Lock()
 					idDrops++
@@ -176,6 +196,17 @@ func init() {
 			},
 		}
 		st := e1.BFS(cfg)
+		// the same search from states in which a document with keys below array elements and a unique index exist
+		for _, seed := range [][]string{
+			{`d.c.InsertOne({"_id":{"$numberInt":"4"}`, `d.c.CreateIndex({"items.k"`},
+			{`d.c.InsertOne({"_id":{"$numberInt":"4"}`, `d.c.CreateIndex({"a":{"$numberInt":"1"}},unique=true,partial=null,name=""`},
+		} {
+			ss := bfsSeeded(cfg, depth-1, seed...)
+			st.States += ss.States
+			st.Transitions += ss.Transitions
+			st.ReplayCalls += ss.ReplayCalls
+			st.Exhaustive = st.Exhaustive && ss.Exhaustive
+		}
 		r.Set("states", st.States)
 		r.Set("transitions", st.Transitions)
 		r.Set("traces_validated_against_impl", st.Transitions)
@@ -198,4 +229,15 @@ func init() {
 			r.Broken("vacuous: states=%d noops=%d conflicts=%d idDrops=%d", st.States, noops, conflicts, idDrops)
 		}
 	})
+}
+
+func partialOf(c mongokit.IndexConfig) bson.D {
+	if c.Partial == nil {
+		return nil
+	}
+	return *c.Partial
+}
+
+func cfgString(c mongokit.IndexConfig) string {
+	return fmt.Sprintf("{key %s unique %v partial %s expiry %v}", J(*c.Key), c.Unique, J(partialOf(c)), c.Expiry)
 }
